@@ -59,7 +59,9 @@ def gen_select(rng):
 def gen_og(rng):
     r = rng.random()
     os_ = [rng.choice(OKEYS) for _ in range(rng.randint(1, 3))]
-    gs = ["none"] if rng.random() < 0.2 else rng.sample(GKEYS, rng.randint(1, 4))
+    # keys may repeat (G file file): every atom is one grouping level
+    gs = ["none"] if rng.random() < 0.2 else ([rng.choice(GKEYS) for _ in range(rng.randint(1, 4))] if rng.random() < 0.4
+                                                else rng.sample(GKEYS, rng.randint(1, 4)))
     if r < 0.3:
         return ["none"]
     if r < 0.5:
